@@ -165,3 +165,36 @@ func VerifH_C12_ResumeOverNullPadding() {
 	vCover("resumed-over-padding-v1", o.v1)
 	vCover("resumed-over-padding-v2", !o.v1)
 }
+
+// VerifH_C12_ResumeUnderLimits: resumption with non-default size limits: the CARv1 header (two
+// roots, about 40 bytes) is longer than MaxAllowedSectionSize (16) and shorter than
+// MaxAllowedHeaderSize (64), sections stay below 16 bytes. An interrupted (abandoned or finalized)
+// and resumed session ends in the same bytes as an uninterrupted one.
+func VerifH_C12_ResumeUnderLimits() {
+	o := vSessOpts{v1: vBool("writeAsCarV1"), codec: 0x0401, storeID: vBool("storeIdentity")}
+	opts := append(o.list(), carv2.MaxAllowedSectionSize(16), carv2.MaxAllowedHeaderSize(64))
+	roots := []cid.Cid{vCidID("root"), vCidID("root2")}
+	ctx := context.Background()
+	f := newVFile()
+	sc, err := NewReadableWritable(f, roots, opts...)
+	vAssert("open", err == nil)
+	b1, b2 := vValidBlockT("b1", 1), vValidBlockT("b2", 1)
+	vNoCollisions([]vEntry{b1, b2})
+	vAssert("put1", sc.Put(ctx, b1.c.KeyString(), b1.data) == nil)
+	if vChoose("interruption", 2) == 1 {
+		vAssert("finalize-ok", sc.Finalize() == nil)
+	}
+	sc, err = OpenReadableWritable(f, roots, opts...)
+	vAssert("reopen-under-limits", err == nil)
+	vAssert("put2", sc.Put(ctx, b2.c.KeyString(), b2.data) == nil)
+	vAssert("final-finalize", sc.Finalize() == nil)
+
+	g := newVFile()
+	sd, err := NewReadableWritable(g, roots, opts...)
+	vAssert("open2", err == nil)
+	vAssert("put1b", sd.Put(ctx, b1.c.KeyString(), b1.data) == nil)
+	vAssert("put2b", sd.Put(ctx, b2.c.KeyString(), b2.data) == nil)
+	vAssert("finalize2", sd.Finalize() == nil)
+	vAssert("byte-identical-to-uninterrupted", vBytesEq(f.data, g.data))
+	vCover("resumed-under-limits", true)
+}
